@@ -19,9 +19,14 @@
 
    Sub-programs whose intermediate states break the invariant are handled by [special] rules on [strip s]:
    the copy pair  CopyPos d s; CopyFit d s  (either order; d = Best: best := copy of s after s.fit < best.fit),
-   the swap pair  SwapPos Cur Best; SwapFit Cur Best, the body of PSO._evaluate, and ForSlots itself: a strong
+   the swap pair  SwapPos Cur Best; SwapFit Cur Best, the body of PSO._evaluate, the pair  Havoc r; Clip r
+   (one write of a clipped position: for an indexed slot the other slots stay clipped), and ForSlots itself: a strong
    rule (every slot is visited exactly once, so the slots not yet reached are still described by the state
-   before the loop) whose body is analysed by the first-level interpreter [ba_absint0]. *)
+   before the loop) whose body is analysed by the first-level interpreter [ba_absint0].
+
+   [ba_init] describes the state ANY task starts in (positions clipped, no agent below the best agent: on a fresh
+   space every fitness is the sentinel; see c02_start in BestMinSound.v); [c02_check] is the check for one task,
+   [c02r_check] adds the end-of-task condition under which another task may follow on the same space. *)
 From Coq Require Import String ZArith List Bool Arith Lia.
 From OV Require Import Base.FloatKey Model.Clip Model.IR Model.IRSem Analysis.AbsInt Analysis.SemLemmas Analysis.Sweep.
 Import ListNotations.
@@ -230,6 +235,21 @@ Definition is_copy_pair (t : stmt) : option (ref * ref) :=
   | _ => None
   end.
 
+(* r.position = <arithmetic>; r.check_limits()  -- the two writes amount to one write of a clipped position: for an
+   indexed slot (weak update) the other slots keep what was known about them *)
+Definition is_havoc_clip (t : stmt) : option ref :=
+  match t with
+  | Seq (Havoc _ r) (Clip r') => if ref_eqb r r' then Some r else None
+  | _ => None
+  end.
+Definition havoc_clip_a (l : nat) (r : ref) (a : ba) : ba * list alarm :=
+  match r with
+  | Best => (a, c02 l "the best position is modified")
+  | _ => if is_carrier (snd (rd r a))
+         then (a, c02 l "a position that may hold the only record of an evaluation is overwritten")
+         else (wr r (QFeas, snd (rd r a)) (kill r a), [])
+  end.
+
 Definition swap_a (a : ba) : ba := set (kill Best (kill Cur (with_locw a false))) CCur (QNone, Clean).
 Definition pso_a (a : ba) : ba := set (kill Best (kill Cur a)) CCur (QFeas, Clean).
 
@@ -250,7 +270,10 @@ Definition ba_special0 (l : nat) (incur : bool) (s : stmt) (a : ba) : option (ba
         Some (if incur && qge (fst (b_cur a)) QFeas && negb (is_carrier (snd (b_cur a))) && b_locw a
               then (pso_a a, [])
               else (a, c02 l "PSO sweep step on a slot that is not clipped, or local positions out of step with the fitnesses"))
-      else None
+      else match is_havoc_clip t with
+           | Some r => Some (havoc_clip_a l r a)
+           | None => None
+           end
   end.
 
 Fixpoint subset_facts (l1 l2 : list fact) : bool :=
@@ -299,7 +322,8 @@ Definition ba_special (l : nat) (incur : bool) (s : stmt) (a : ba) : option (ba 
 
 Definition ba_absint := absint ba ba_leb ba_join ba_atom ba_assume ba_enter ba_exit ba_special.
 
-(* a freshly built space: every fitness is the sentinel (so every slot is Clean w.r.t. the placeholder best),
+(* the start of a task: no agent is below the best agent (on a freshly built space every fitness is the sentinel; a
+   later task inherits the fitnesses and the best agent of the previous one), so every slot is Clean;
    positions feasible, nothing known about the trial and the shadows *)
 Definition ba_init : ba :=
   {| b_pop := (QFeas, Clean); b_cur := top_cell; b_todo := top_cell; b_tr := (QNone, Idle); b_shall := (QNone, Idle); b_sh := top_cell;
@@ -308,5 +332,15 @@ Definition ba_init : ba :=
 Definition c02_check (p : stmt) : bool :=
   match ba_absint 0 false p ba_init with
   | (a', []) => no_carrier a'
+  | _ => false
+  end.
+
+(* the check for a task that may be followed by another task on the same space: moreover the program leaves every
+   position clipped and no agent below the best agent (ba_init describes any such state, see c02_start in
+   BestMinSound.v: the sentinel is replaced by the fitness of the inherited best agent) *)
+Definition end_ok (a : ba) : bool := qge (fst (b_pop a)) QFeas && is_clean (snd (b_pop a)).
+Definition c02r_check (p : stmt) : bool :=
+  match ba_absint 0 false p ba_init with
+  | (a', []) => no_carrier a' && end_ok a'
   | _ => false
   end.
